@@ -223,7 +223,7 @@ def configs(tier: str) -> list[Config]:
                             continue        # the widest formats: offset 0 only (keeps thorough near 25 min)
                         out.append(Config('EFloat', {'es': es, 'nbits': nbits, 'inf': inf, 'nan_kind': kind,
                                                      'eoffset': eoff}))
-                        if eoff == 0 and nbits >= 3 and (not quick or (nbits == 4 and es == 2)):
+                        if eoff == 0 and 3 <= nbits <= 5 and (not quick or (nbits == 4 and es == 2)):
                             for nv, iv in ((0, None), (None, 0), ('inf', None), (1, 1)):
                                 out.append(Config('EFloat', {'es': es, 'nbits': nbits, 'inf': inf, 'nan_kind': kind,
                                                              'eoffset': eoff, 'nan_value': nv, 'inf_value': iv}))
